@@ -423,11 +423,13 @@ def part_bitfields(chk, c2m, model, d, quick):
             mask = 0
             for A, w in ext:
                 mask |= ((1 << w) - 1) << A
-            for form in range(4):
+            for form in range(5):
                 if form < 2 and avoid_mixed and F.mixed_units(c, ext):
                     chk.dist('F_init', 'static form skipped: shape of the known finding mixed_bitfield_init')
                     continue
-                want = F.init_expect(c, ext, form)
+                if form == 4 and not c.get('seq'):
+                    continue
+                want = (F.init_expect(c, ext, form) if form < 4 else F.seq_expect(c, ext, len(N[(k, 0)]))) & mask
                 chk.count('Finit:%r' % ((c['members'], c['ivals'], c['npos'], c['des'], form),), nontrivial=True, n=len(ENGINES) + 1)
                 chk.dist('F_init', F.INIT_FORMS[form])
                 for en, (Nn, Vv) in runs.items():
@@ -580,7 +582,7 @@ def part_programs(chk, c2m, d, quick):
     invalid = 0
     texts = []
     cp = os.path.join(vlib.VERIF, 'corpus')
-    for f in sorted(os.listdir(cp)) if os.path.isdir(cp) else []:
+    for f in sorted(os.listdir(cp)) if os.path.isdir(cp) and not os.environ.get('C07_NO_CORPUS') else []:   # development switch
         if f.startswith('c07_prog') and f.endswith('.c'):
             texts.append(('corpus:' + f, open(os.path.join(cp, f)).read(), ['corpus']))
     # a known finding of another component (mir-gen) is identified by its witness program in corpus/;
